@@ -316,6 +316,101 @@ fn main() {
                 let r = receiver_auto_credit_dispose(nums[0] as u32, nums[1] as u32, nums[2] as u32, nums[3] == 1);
                 format!("{{\"ok\":{},\"flows\":{},\"processed_after\":{}}}", r.ok, r.flows_with_full_credit, r.processed_after)
             }
+            // peer_close <local_first 0|1> <peer_error 0|1>: a real client connection (public API,
+            // open_with_stream over an in-memory duplex) against a scripted peer. local_first=1: the
+            // client closes first and the peer answers with a close (carrying an error or not);
+            // local_first=0: the peer closes first. Reports what ConnectionHandle::close returned.
+            "peer_close" => {
+                use bytes::{BufMut, BytesMut};
+                use fe2o3_amqp::frames::amqp::{Frame, FrameBody, FrameDecoder};
+                use fe2o3_amqp_types::performatives::{ChannelMax, Close, MaxFrameSize, Open};
+                use tokio::io::{AsyncReadExt, AsyncWriteExt};
+                use tokio_util::codec::{Decoder, Encoder};
+                let local_first = nums[0] == 1;
+                let peer_error = nums[1] == 1;
+                let rt = tokio::runtime::Builder::new_current_thread().enable_time().build().unwrap();
+                let out = rt.block_on(async move {
+                    fn wire(frame: Frame) -> Vec<u8> {
+                        let mut enc = frame_encoder(512);
+                        let mut body = BytesMut::new();
+                        enc.encode(frame, &mut body).unwrap();
+                        let mut v = Vec::new();
+                        v.put_u32(body.len() as u32 + 4);
+                        v.extend_from_slice(&body);
+                        v
+                    }
+                    let (client_io, mut peer_io) = tokio::io::duplex(4096);
+                    let peer = tokio::spawn(async move {
+                        let mut hdr = [0u8; 8];
+                        peer_io.read_exact(&mut hdr).await.unwrap();
+                        peer_io.write_all(b"AMQP\x00\x01\x00\x00").await.unwrap();
+                        let open = Open {
+                            container_id: "peer".to_string(),
+                            hostname: None,
+                            max_frame_size: MaxFrameSize(512),
+                            channel_max: ChannelMax(10),
+                            idle_time_out: None,
+                            outgoing_locales: None,
+                            incoming_locales: None,
+                            offered_capabilities: None,
+                            desired_capabilities: None,
+                            properties: None,
+                        };
+                        peer_io.write_all(&wire(Frame::new(0u16, FrameBody::Open(open)))).await.unwrap();
+                        let close = || Close {
+                            error: if peer_error { Some(fe2o3_amqp_types::definitions::Error::new(fe2o3_amqp_types::definitions::AmqpError::InternalError, Some("peer says no".to_string()), None)) } else { None },
+                        };
+                        if !local_first {
+                            peer_io.write_all(&wire(Frame::new(0u16, FrameBody::Close(close())))).await.unwrap();
+                        }
+                        // read frames until the client's close arrives
+                        let mut sent_close = !local_first;
+                        loop {
+                            let mut len = [0u8; 4];
+                            if peer_io.read_exact(&mut len).await.is_err() {
+                                break;
+                            }
+                            let n = u32::from_be_bytes(len) as usize - 4;
+                            let mut body = vec![0u8; n];
+                            if peer_io.read_exact(&mut body).await.is_err() {
+                                break;
+                            }
+                            let mut src = BytesMut::from(&body[..]);
+                            if let Ok(Some(f)) = (FrameDecoder {}).decode(&mut src) {
+                                if matches!(f.body, FrameBody::Close(_)) {
+                                    if !sent_close {
+                                        let _ = peer_io.write_all(&wire(Frame::new(0u16, FrameBody::Close(close())))).await;
+                                        sent_close = true;
+                                    }
+                                    break;
+                                }
+                            }
+                        }
+                    });
+                    let res = tokio::time::timeout(std::time::Duration::from_secs(5), async {
+                        let mut conn = fe2o3_amqp::Connection::builder().container_id("client").open_with_stream(client_io).await.map_err(|e| format!("open: {e:?}"))?;
+                        if !local_first {
+                            // give the peer's close time to arrive
+                            tokio::time::sleep(std::time::Duration::from_millis(50)).await;
+                        }
+                        let r = conn.close().await;
+                        Ok::<_, String>(match r {
+                            Ok(()) => "ok",
+                            Err(fe2o3_amqp::connection::Error::RemoteClosedWithError(_)) => "remote_closed_with_error",
+                            Err(fe2o3_amqp::connection::Error::RemoteClosed) => "remote_closed",
+                            Err(_) => "other_error",
+                        })
+                    })
+                    .await;
+                    let _ = peer.await;
+                    match res {
+                        Ok(Ok(s)) => s.to_string(),
+                        Ok(Err(e)) => e,
+                        Err(_) => "hang".to_string(),
+                    }
+                });
+                format!("{{\"close_result\":\"{}\"}}", out)
+            }
             // wakeup <pos> <credit>: one waiter with no credit, one grant of <credit> placed
             //   pos 0: before the first poll, 1: at the cfg schedule point (between the failed credit
             //   check and the creation of the wait future), 2: after the first poll returned Pending;
